@@ -12,11 +12,13 @@ META = {
             "back-references, further objects with reference slots; every injective assignment of sparse object numbers so "
             "that page ids are in any order, generations 0/1, shared, cyclic, self and dangling references, bookmarks on "
             "pages, start values below/inside/above the old range), runs renumber_objects_with transcribed action by action "
-            "(page-order pass, dense pass, traverse_objects, per-pair bookmark updates) and checks the result against the "
+            "(page-order pass, dense pass, traverse_objects, bookmark table renamed through the whole map) and checks the result against the "
             "declarative statement: a functional, injective renaming found by lock-step traversal from the two trailers "
             "under which trailer, reachable objects, page sequence and bookmark targets are the originals renamed, numbers "
-            "consecutive from start, max_id the last one, dangling references still dangling. The model is checked both as "
-            "the code is (the only counter-examples are the listed findings) and as repaired (none). Every generated "
+            "consecutive from start, max_id the last one, dangling references still dangling. The model as the code is (since "
+            "the fix: commits for bookmark.chain, dangling.capture, dangling.capture.pageorder, panic.empty0) has no "
+            "counter-example; with those defects seeded back into the model the only counter-examples are exactly their four "
+            "signatures (negative control of the declarative layer). Every generated "
             "document is then renumbered by lopdf and the before/after pair judged by TLC with the declarative layer only; "
             "so are before/after pairs of seeded random reference graphs of up to 16 objects.",
     "note": "Trusted: TLC, the projection in harness/src/wire.rs, Renumber!Acceptable as the reading of the statement "
@@ -29,7 +31,8 @@ META = {
 
 MC_ACTIONS = ["Build1", "Build2", "Build3", "BeginS", "PagePairS", "PageFinishS", "DensePlanS", "DensePairS",
               "DenseFinishS"]
-MC_ACTIONS_REPAIRED = [a for a in MC_ACTIONS] + ["DenseFinishRepaired"]
+MC_ACTIONS_REPAIRED = [a for a in MC_ACTIONS] + ["DenseFinishRepaired"]   # the code as it is (saturating max_id)
+FORMER_FINDINGS = ["bookmark.chain", "dangling.capture", "dangling.capture.pageorder", "panic.empty0"]
 
 
 def require_actions(cases, actions):
@@ -217,7 +220,8 @@ def run(tier):
     w = workdir("c10")
     quick = tier == "quick"
     workers = 4 if quick else 16
-    # (M) the design, as the code is: the only counter-examples are the listed signatures (cfg Allowed)
+    # (M) the design, as the code is (all deviation switches off since the fix: commits): no counter-example at
+    # all (cfg Allowed = {"ok"}, invariant Refines)
     cfg = "MC_Renumber_quick.cfg" if quick else "MC_Renumber_thorough.cfg"
     r = tlc("MC_Renumber.tla", cfg, workers=workers, timeout=3000, env={"C10_PICK": vlib.seed()},
             xmx="4g" if quick else "8g")
@@ -229,22 +233,29 @@ def run(tier):
     for c in cases:
         model_verdicts[c["v"]] = model_verdicts.get(c["v"], 0) + 1
     chk.extra["model_verdicts_as_code_is"] = model_verdicts
-    if model_verdicts.get("ok", 0) < len(cases) // 2:
-        raise vlib.ToolError("vacuous: fewer than half of the generated cases are acceptable in the model")
-    require_actions(cases, MC_ACTIONS)
+    if set(model_verdicts) != {"ok"}:
+        raise vlib.ToolError("model as the code is produced a verdict other than ok: %s" % sorted(model_verdicts))
+    require_actions(cases, MC_ACTIONS_REPAIRED)
     if not any(c["needs"] for c in cases) or not any(not c["needs"] for c in cases):
         raise vlib.ToolError("vacuous: the generated cases do not both take and skip the page-order pass")
-    # (M') as repaired, action by action: no counter-example at all.  (On the thorough layouts the repaired
-    # variant is checked in function form by the invariant RepairedRefines of the run above.)
-    cfg2 = "MC_Renumber_quick_repaired.cfg"
+    # (M') negative control of the declarative layer: the four repaired defects seeded back into the design
+    # (switches on).  The counter-examples are exactly their signatures (cfg Allowed), each of them occurs, and
+    # the variant without deviations is acceptable on every one of these documents (RepairedRefines).
+    cfg2 = "MC_Renumber_quick_seeded.cfg"
     r2 = tlc("MC_Renumber.tla", cfg2, workers=workers, timeout=3000, env={"C10_PICK": 0}, xmx="4g",
              name=os.path.splitext(cfg2)[0])
     cases2 = r2.tagged("REPLAY")
     if quick and len(cases2) != len(cases):
-        raise vlib.ToolError("as-repaired run completed %d cases, as-the-code-is run %d" % (len(cases2), len(cases)))
-    if any(c["v"] != "ok" for c in cases2):
-        raise vlib.ToolError("as-repaired model produced a verdict other than ok")
-    require_actions(cases2, MC_ACTIONS_REPAIRED)
+        raise vlib.ToolError("seeded run completed %d cases, as-the-code-is run %d" % (len(cases2), len(cases)))
+    seeded = {}
+    for c in cases2:
+        for tag in c["v"].split("+"):
+            seeded[tag] = seeded.get(tag, 0) + 1
+    missing = [t for t in FORMER_FINDINGS if not seeded.get(t)]
+    if missing or seeded.get("ok", 0) < len(cases2) // 2:
+        raise vlib.ToolError("seeded design deviations not detected by the model: %s (verdicts %s)" % (missing, seeded))
+    require_actions(cases2, MC_ACTIONS)
+    chk.extra["model_verdicts_defects_seeded"] = seeded
     chk.add_tlc(r2)
     chk.exhaustive = True
     # (G) every generated case replayed into lopdf, the before/after pair judged by the declarative layer
